@@ -41,6 +41,8 @@ def obligations(ctx):
             obs.append(c01.prod_ob(t, 1, nn, avx, 2, 2, tag="api/"))
             obs.append(c01.prod_ob(t, 2, nn, avx, 3, 2, nrows=2, ncols=3, tag="api/"))
             obs.append(c01.prod_ob(t, 3, nn, avx, 2, 3, nrows=3, ncols=2, tag="api/"))
+            obs.append(c01.prod_ob(t, 3, nn, avx, 3, 2, nrows=2, ncols=4, tag="api/"))  # odd last output column inside a column pair
+            obs.append(c01.prod_ob(t, 2, nn, avx, 3, 3, asl=nn + 1, nrows=3, ncols=5, tag="api/"))
     seen, out = set(), []
     for o in obs:
         if o.name not in seen:
